@@ -140,6 +140,10 @@ pub fn requests(thorough: bool) -> Vec<(String, Value)> {
         }
         add(&format!("hist_{field}_hard"), json!({"h": {"histogram": {"field": field, "interval": 2.5, "hard_bounds": {"min": 0.0, "max": 5.0}}}}));
         add(&format!("hist_{field}_ext"), json!({"h": {"histogram": {"field": field, "interval": 2.5, "extended_bounds": {"min": -5.0, "max": 12.5}}}}));
+        // extended bounds narrower than the data (they only widen the bucket range, never shrink it) and inside a gap
+        add(&format!("hist_{field}_ext_narrow"), json!({"h": {"histogram": {"field": field, "interval": 2.5, "extended_bounds": {"min": 0.0, "max": 2.5}}}}));
+        add(&format!("hist_{field}_ext_gap"), json!({"h": {"histogram": {"field": field, "interval": 2.5, "extended_bounds": {"min": 5.0, "max": 6.0}}}}));
+        add(&format!("hist_{field}_ext_left"), json!({"h": {"histogram": {"field": field, "interval": 2.5, "extended_bounds": {"min": -10.0, "max": 0.0}}}}));
         add(&format!("hist_{field}_sub"), json!({"h": {"histogram": {"field": field, "interval": 2.5, "min_doc_count": 1}, "aggs": {"mx": {"max": {"field": "n"}}}}}));
     }
     // terms (single-valued) x histogram (multi-valued) and other depth-2 nestings
@@ -155,6 +159,10 @@ pub fn requests(thorough: bool) -> Vec<(String, Value)> {
         }
     }
     add("datehist_offset", json!({"d": {"date_histogram": {"field": "date", "fixed_interval": "1d", "offset": "-4h"}}}));
+    // zero-count buckets carrying sub-aggregations: a term without a hit in one partition
+    add("terms_mdc0_filter_sum", json!({"t": {"terms": {"field": "k", "size": 10, "segment_size": 10, "min_doc_count": 0, "order": {"_key": "asc"}}, "aggs": {"f": {"filter": "txt:x", "aggs": {"s": {"sum": {"field": "val"}}}}}}}));
+    add("terms_mdc0_avg", json!({"t": {"terms": {"field": "k", "size": 10, "segment_size": 10, "min_doc_count": 0, "order": {"_key": "asc"}}, "aggs": {"a": {"avg": {"field": "val"}}, "c": {"value_count": {"field": "n"}}}}}));
+    add("filter_terms_mdc0", json!({"f": {"filter": "txt:y", "aggs": {"t": {"terms": {"field": "k", "size": 10, "segment_size": 10, "min_doc_count": 0, "order": {"_key": "desc"}}, "aggs": {"m": {"max": {"field": "n"}}}}}}}));
     add("filter_q", json!({"f": {"filter": "txt:x", "aggs": {"s": {"sum": {"field": "val"}}}}}));
     add("composite_1", json!({"c": {"composite": {"size": 2, "sources": [{"kk": {"terms": {"field": "k"}}}]}}}));
     add("composite_2", json!({"c": {"composite": {"size": 10, "sources": [{"gg": {"terms": {"field": "g"}}}, {"nn": {"histogram": {"field": "n", "interval": 5.0}}}]}}}));
@@ -620,6 +628,8 @@ pub struct Prepared {
     docs: Vec<usize>,
     single: Index,
     splits: Vec<(Vec<usize>, Index, Vec<Index>)>,
+    /// an index without any document (a shard that holds nothing)
+    empty: Index,
 }
 
 pub fn prepare(docs: &[usize]) -> Prepared {
@@ -636,7 +646,7 @@ pub fn prepare(docs: &[usize]) -> Prepared {
         }
         splits.push((segs, idx, parts));
     }
-    Prepared { docs: docs.to_vec(), single, splits }
+    Prepared { docs: docs.to_vec(), single, splits, empty: build(&[], &[]) }
 }
 
 /// all checks of one (corpus, request, query)
@@ -658,6 +668,32 @@ pub fn check(p: &Prepared, name: &str, req: &Value, qi: usize, st: &mut Stats) -
         st.count("direct_comparisons");
         if let Err(e) = matches_expected(&reference, &want, "") {
             return Some(("differs_from_direct_computation".into(), format!("single segment: {e}")));
+        }
+    }
+    // (c0) an empty shard merged before / after the single index must not change anything
+    {
+        let aggs: Aggregations = serde_json::from_value(req.clone()).ok()?;
+        for empty_first in [true, false] {
+            st.count("empty_shard_merges");
+            let e = match run_intermediate(&p.empty, req, q.as_ref()) {
+                Ok(x) => x,
+                Err(e) => return Some(("aggregation_error".into(), format!("empty index: {e}"))),
+            };
+            let f = match run_intermediate(&p.single, req, q.as_ref()) {
+                Ok(x) => x,
+                Err(e) => return Some(("aggregation_error".into(), format!("single index (intermediate): {e}"))),
+            };
+            let (mut a, b) = if empty_first { (e, f) } else { (f, e) };
+            if let Err(e) = a.merge_fruits(b) {
+                return Some(("merge_fruits_error".into(), format!("with an empty shard: {e:?}")));
+            }
+            let fin = match a.into_final_result(aggs.clone(), AggregationLimitsGuard::default()) {
+                Ok(f) => serde_json::to_value(&f).ok()?,
+                Err(e) => return Some(("into_final_result_error".into(), format!("{e:?}"))),
+            };
+            if let Err(e) = same_json(&fin, &reference, "") {
+                return Some(("depends_on_partition".into(), format!("the intermediate result of an index without documents merged {} the single index: {e}", if empty_first { "before" } else { "after" })));
+            }
         }
     }
     // (b) every contiguous split into <= 3 segments of one index
